@@ -49,7 +49,7 @@ META = {
         "tokens render every child once; (d) children are rendered inside current_node_context of an empty element built by the handler; (e) a value stored in the node built "
         "for one child is assigned on every path of that iteration (no stale value of an earlier child); (f) the handlers of the leaf types the property names "
         "(text, inline code, code block, fence, math, raw HTML, image, thematic break) add something to the node being filled on every normal path (an empty token.content excepted); "
-        "(g) nothing in the render scope removes nodes from a tree handed in by the caller or from the renderer's own nodes, unless the name was rebound to a deepcopy on every path, or the removal is a relocation of system_message nodes (each removed node re-inserted exactly once); "
+        "(g) nothing in the render scope removes nodes from a tree handed in by the caller or from the renderer's own nodes, unless the name was rebound to a deepcopy on every path, or the removal is a relocation of system_message nodes (each removed node re-inserted exactly once), or a detach-and-return helper (only system_message nodes are removed and the list of them is returned); "
         "(h) the message node handed to note_explicit_target / note_implicit_target is not the target node itself when that node can be a text element or image (classes from constructors, call sites of node parameters, isinstance guards); "
         "(j) where a block container handler drops the token's children under a reported condition (duplicate footnote definition ...), the condition inspects the token's data (label, content, attributes) as markdown-it produced it, not a normalised copy; "
         "(i) a node that gets a refname carries a rawsource (docutils' DanglingReferences transform, read from its source, replaces an unresolved reference by problematic(rawsource)). "
@@ -59,7 +59,7 @@ META = {
         "parameters and helpers); an inventory link's refuri is computed from the inventory match (assumed, recognised by role: result of get_inventory_matches or an InvMatch parameter); a destination that receives only one part of a split href must have the remainder stored on the same node (download_reference excepted); image alt is "
         "the text of the image token's children, agrees per token type with markdown-it's reference renderInlineAsText (content / recursion / constant; any other contribution, e.g. an attribute that markdown-it only fills at HTML render time, is a disagreement) and visits nested inline nodes in source order (recursion or an "
         "order-preserving work list); the ordered-list start reaches the node for every legal start including 0 (decision table of the guards and the stored value), copy_attributes never "
-        "tests the truthiness of a value it copies; the code language derives from token.info, is computed from the unescaped info string on every path (unescapeAll, as markdown-it's own fence renderer - a raw/unescaped state flow) and is its first whitespace-delimited word (cut with str.split on any whitespace, as markdown-it's fence renderer does, not at one separator character); "
+        "tests the truthiness of a value it copies; the code language derives from token.info, is computed from the unescaped info string on every path, with the unescaping applied before the word is cut out (unescapeAll, as markdown-it's own fence renderer - a raw / cut-raw / unescaped state flow) and is its first whitespace-delimited word (cut with str.split on any whitespace, as markdown-it's fence renderer does, not at one separator character); "
         "a forward flow analysis of the percent-encoding state (attrGet/normalizeLink = encoded, normalizeLinkText = decoded) shows that no refuri/uri receives a decoded value on any path (an id_link refuri is a local target name, C09); "
         "html_to_nodes' convertibility gate and conversion loop range over every child of the parsed HTML (all-or-nothing conversion of a raw-HTML leaf); no output-format encoder (escapeHtml, html.escape ...) lies between the href/src and the stored destination; the fragments of the library lexer add up to the code text (the lexing may live in the highlighter or in a helper that is handed the text), checked as two facts read off the docutils/pygments sources: "
         "(1) pygments' default stripnl=True (docutils passes no options) must be switched off on the lexer on every path to the fragment loop, (2) the final newline that docutils' Lexer.merge strips must be put back, "
@@ -1751,6 +1751,8 @@ def r2_nesting_discipline(corpus: Corpus, rep: Report, tier: str):
                 k = f"{fi.fq}|{short(op, 50)} works on a copy"
                 if why:
                     rep.violation("C02.R2", k, fi.module.site(op), f"`{short(op, 50)}` removes nodes from `{root}`, {why}" + ("" if why.startswith("and ") else ": nodes that were rendered into the doctree disappear from it again"))
+                elif -id(op) in getattr(_live_tree_removals, "relocations", set()):
+                    rep.ok("C02.R2", k, fi.module.site(op), "detach-and-return: only system_message nodes are removed and the list of them is returned for the caller to place")
                 elif id(op) in getattr(_live_tree_removals, "relocations", set()):
                     rep.ok("C02.R2", k, fi.module.site(op), "a relocation: each removed system_message is re-inserted exactly once; no content node is moved")
                 else:
@@ -1871,6 +1873,8 @@ def _live_tree_removals(corpus: Corpus, an: Nesting):
                 for n in f.local_nodes():
                     if isinstance(n, ast.For) and isinstance(n.target, ast.Name) and n.target.id == moved:
                         it = n.iter
+                        if isinstance(it, ast.Name) and len(_all_defs(f, it.id)) == 1:
+                            it = _all_defs(f, it.id)[0]
                         while isinstance(it, ast.Call) and dotted(it.func) in ("list", "tuple", "reversed") and it.args:
                             it = it.args[0]
                         if isinstance(it, ast.Call) and it.args:
@@ -1890,6 +1894,17 @@ def _live_tree_removals(corpus: Corpus, an: Nesting):
                     if not only_messages:
                         out.append((f, op, root, f"and re-inserts `{moved}` elsewhere although it is not known to be a system_message: content is moved out of its container / out of source order"))
                         continue
+            if moved is not None and only_messages and (not counts or counts == {0}):
+                # detach-and-return: the removed system messages come from a list that the function returns, the caller places them
+                src_list = None
+                for n in f.local_nodes():
+                    if isinstance(n, ast.For) and isinstance(n.target, ast.Name) and n.target.id == moved and isinstance(n.iter, ast.Name):
+                        src_list = n.iter.id
+                rets = [r for r in f.local_nodes() if isinstance(r, ast.Return) and r.value is not None]
+                if src_list is not None and rets and all(isinstance(r.value, ast.Name) and r.value.id == src_list for r in rets):
+                    out.append((f, op, root, ""))
+                    relocations.add(-id(op))
+                    continue
             if root.startswith("self."):
                 out.append((f, op, root, "the renderer's own live node"))
                 continue
@@ -2656,6 +2671,14 @@ def _alt_contributions(fi: FunctionInfo) -> tuple[dict[str, tuple], tuple]:
                     return ""
         raise Unsupported(f"{fi.fq}: push of the children `{short(st, 50)}` not understood")
 
+    # accumulators of the form `parts.append(x)` ... `return "".join(parts)`
+    joined_lists = set()
+    for r in fi.local_nodes():
+        if isinstance(r, ast.Return) and isinstance(r.value, ast.Call) and isinstance(r.value.func, ast.Attribute) and r.value.func.attr == "join" and isinstance(r.value.func.value, ast.Constant) and r.value.func.value.value == "" and r.value.args and isinstance(r.value.args[0], ast.Name):
+            joined_lists.add(r.value.args[0].id)
+    if wl is not None:
+        joined_lists.discard(wl[0])
+
     def contribution(body) -> tuple:
         out: tuple | None = None
         for st in body:
@@ -2664,8 +2687,11 @@ def _alt_contributions(fi: FunctionInfo) -> tuple[dict[str, tuple], tuple]:
                 c = contribution(st.body)
             elif po is not None:
                 c = ("recurse",) if po == "" else ("recurse-out-of-order", po)
-            elif isinstance(st, ast.AugAssign) and isinstance(st.op, ast.Add):
-                v = st.value
+            elif (isinstance(st, ast.AugAssign) and isinstance(st.op, ast.Add)) or (
+                isinstance(st, ast.Expr) and isinstance(st.value, ast.Call) and isinstance(st.value.func, ast.Attribute) and st.value.func.attr == "append" and len(st.value.args) == 1
+                and isinstance(st.value.func.value, ast.Name) and st.value.func.value.id in joined_lists
+            ):
+                v = st.value if isinstance(st, ast.AugAssign) else st.value.args[0]
                 if isinstance(v, ast.Attribute) and v.attr == "content" and unparse(v.value) == var:
                     c = ("content",)
                 elif isinstance(v, ast.Constant) and isinstance(v.value, str):
@@ -3364,7 +3390,7 @@ def _forward_states(fi: FunctionInfo, seeds: list[str], state_of) -> dict[object
 RAW, DONE = "raw", "done"
 
 
-def _transform_states(fi: FunctionInfo, an: "Nesting", at: ast.AST, value: ast.expr, is_raw_source, is_transform, depth: int = 0, callers_in: set[str] | None = None) -> set[str]:
+def _transform_states(fi: FunctionInfo, an: "Nesting", at: ast.AST, value: ast.expr, is_raw_source, is_transform, depth: int = 0, callers_in: set[str] | None = None, cuts: bool = False) -> set[str]:
     """States of ``value`` at statement ``at``: RAW if it (may) derive from the raw source without passing the required
     transformation, DONE if it passed it, 'other' if it does not come from the source at all. Package helpers that are
     handed the token / a string parameter are followed one level (return values / call sites)."""
@@ -3375,13 +3401,22 @@ def _transform_states(fi: FunctionInfo, an: "Nesting", at: ast.AST, value: ast.e
             return {RAW}
         if isinstance(e, ast.Call):
             if is_transform(e, f):
+                if cuts:
+                    inner: set[str] = set()
+                    for a in list(e.args) + [k.value for k in e.keywords]:
+                        inner |= state_of(a, env, f)
+                    if "cutraw" in inner:
+                        return {"late"}  # transformed only after a piece was cut out of the raw string
                 return {DONE}  # the output of the transformation is transformed, whatever went in
+            if cuts and isinstance(e.func, ast.Attribute) and e.func.attr in SPLITTERS:
+                recv = state_of(e.func.value, env, f)
+                return {("cutraw" if x == RAW else x) for x in recv} or {"other"}
             m = an.resolve_callee(e, f) if depth < 2 else None
             if m is not None and not m.is_lambda and any(isinstance(a, ast.Name) and a.id in toks for a in e.args) and _tok_params(m):
                 out: set[str] = set()
                 for r in m.local_nodes():
                     if isinstance(r, ast.Return) and r.value is not None:
-                        out |= _transform_states(m, an, r, r.value, is_raw_source, is_transform, depth + 1, callers_in)
+                        out |= _transform_states(m, an, r, r.value, is_raw_source, is_transform, depth + 1, callers_in, cuts)
                 return out or {"other"}
             out = set()
             for a in list(e.args) + [k.value for k in e.keywords] + ([e.func.value] if isinstance(e.func, ast.Attribute) else []):
@@ -3398,7 +3433,7 @@ def _transform_states(fi: FunctionInfo, an: "Nesting", at: ast.AST, value: ast.e
                     for c in g.local_nodes():
                         if isinstance(c, ast.Call) and f in an.call_targets_safe(c, g):
                             for a in an._args_for_param(c, f, e.id):
-                                out |= _transform_states(g, an, c, a, is_raw_source, is_transform, depth + 1, callers_in)
+                                out |= _transform_states(g, an, c, a, is_raw_source, is_transform, depth + 1, callers_in, cuts)
                 return out or {"other"}
             return {"other"}
         if isinstance(e, ast.Constant):
@@ -3431,8 +3466,12 @@ def _info_unescaped(corpus: Corpus, rep: Report, an: "Nesting", f: FunctionInfo,
         lambda e, fn: isinstance(e, ast.Attribute) and e.attr == "info" and isinstance(e.value, ast.Name) and e.value.id in _tok_params(fn),
         lambda e, fn: (dotted(e.func) or "").endswith("unescapeAll"),
         callers_in={h.fq for h, _t in _token_helpers(an, f, _tok_param(f))},
+        cuts=True,
     )
-    if RAW in st:
+    if "late" in st and not ({RAW, "cutraw"} & st):
+        rep.violation("C02.R3", key, holder.module.site(call), f"on some path the language handed to the highlighter (`{short(lx, 30)}`) is first cut out of the raw token.info and only then unescaped: "
+                      "markdown-it's fence renderer unescapes the whole info string and then takes its first word, so an escaped or referenced space ('```a&#32;b', '```a\\ b') ends the word there ('a') but not here ('a b')")
+    elif {RAW, "cutraw", "late"} & st:
         rep.violation("C02.R3", key, holder.module.site(call), f"on some path the language handed to the highlighter (`{short(lx, 30)}`) is cut out of the raw token.info: backslash escapes and character references "
                       "of the info string are not resolved (markdown-it's fence renderer applies unescapeAll), so '```c&#43;&#43;' / '``` foo\\+bar' get the language 'c&#43;&#43;' / 'foo\\+bar' instead of 'c++' / 'foo+bar'")
     else:
@@ -4768,6 +4807,7 @@ def mutants(corpus: Corpus):
     un = find_node(f, lambda n: isinstance(n, ast.Call) and (dotted(n.func) or "").endswith("unescapeAll"))
     if un is not None and un.args:
         add("c02-revert-info-unescaped", "C02.R3", base, un, "(" + _seg(base, un.args[0]) + ")", "unescaped info string")
+        add("c02-info-unescaped-after-the-cut", "C02.R3", base, un, f"unescapeAll((({_seg(base, un.args[0])}).split(maxsplit=1) or [\"\"])[0])", "unescaped info string")
         add("c02-info-unescaped-only-with-backslash", "C02.R3", base, un, f'({_seg(base, un)} if "\\\\" in ({_seg(base, un.args[0])}) else ({_seg(base, un.args[0])}))', "unescaped info string")
     else:
         out.append(("c02-revert-info-unescaped", "unescapeAll call not found in render_fence"))
